@@ -69,6 +69,10 @@ func runCLI(c *run.Ctx, cs *Case) {
 			args = append([]string{"bars", "--snapshot", "--sort", cs.Spec, "-e", "{$ {1} k {2}}"}, match...)
 		case "table-rows":
 			args = append([]string{"table", "--snapshot", "-n", n, "--cols", "10", "--sort-rows", cs.Spec, "--sort-cols", "text", "-e", "{$ c {1} {2}}"}, match...)
+		case "heat-rows":
+			args = append([]string{"--nocolor", "heatmap", "--snapshot", "-n", n, "--sort-rows", cs.Spec, "--sort-cols", "text", "-e", "{$ c {1} {2}}"}, match...)
+		case "spark-rows":
+			args = append([]string{"--nocolor", "spark", "--snapshot", "-n", n, "--sort-rows", cs.Spec, "--sort-cols", "text", "-e", "{$ c {1} {2}}"}, match...)
 		case "table-both":
 			// both axes sorted with the same mode (two sorters that must not share what they learn from their keys):
 			// two columns whose names are dates in ISO layout, the rows in whatever layout the key set has
@@ -101,6 +105,9 @@ func runCLI(c *run.Ctx, cs *Case) {
 			ctx, cancel := context.WithTimeout(context.Background(), 60*time.Second)
 			cmd := exec.CommandContext(ctx, c.RareBin, args...)
 			cmd.Env = append(os.Environ(), "NO_COLOR=1", "TERM=dumb")
+			if host := hostFor(cs); host != "" {
+				cmd.Env = append(cmd.Env, "TZ="+host)
+			}
 			cmd.Stdout, cmd.Stderr = &stdout, &stderr
 			err = cmd.Run()
 			cancel()
@@ -168,6 +175,23 @@ func parseCLI(target, out string, known map[string]bool) []string {
 				got = append(got, f[0])
 			}
 		}
+	case "heat-rows", "spark-rows":
+		skip := 2 // heat map: legend and header; sparkline: header
+		if target == "spark-rows" {
+			skip = 1
+		}
+		for i, ln := range lines {
+			if i < skip {
+				continue
+			}
+			if strings.HasPrefix(ln, "Matched:") {
+				break
+			}
+			f := strings.Fields(ln)
+			if len(f) >= 2 && known[f[0]] {
+				got = append(got, f[0])
+			}
+		}
 	case "table-cols":
 		if len(lines) > 0 {
 			for _, f := range strings.Fields(lines[0]) {
@@ -180,7 +204,7 @@ func parseCLI(target, out string, known map[string]bool) []string {
 	return got
 }
 
-var cliTargets = []string{"histo", "bars", "table-rows", "table-cols", "reduce", "reduce-sortexpr", "table-both"}
+var cliTargets = []string{"histo", "bars", "table-rows", "table-cols", "reduce", "reduce-sortexpr", "table-both", "heat-rows", "spark-rows"}
 
 // cliKey: keys that survive the regex / expression / renderer unchanged and can be read back.
 func cliKey(k string) bool {
